@@ -112,8 +112,10 @@ var blasArgs = args.Options{RecvType: "Implementation"}
 // Routines whose workspace-query answer WORKSIZE cannot relate to their
 // enforced minimum, each confirmed by reading.
 var worksizeExempt = map[string]string{
-	"Dorghr":  "nh = ihi-ilo: the argument checks force ihi >= ilo-1 (and ihi = -1, ilo = 0 when n == 0), a relation between two parameters that the lower-bound facts of the prover cannot express; with nh >= 0 both answers (1 when n == 0, max(1,nh)*nb otherwise) dominate max(1,nh)",
-	"Dlaqr23": "the answer jw + max(Dgehrd query, Dormhr query) with jw = min(nw, kbot-ktop+1) exceeds the enforced 2*nw only through the constant tsize term of the nested answers (value-level); internal routine whose only caller Dlaqr04 takes the maximum with its own requirement",
+	"Dorghr":                 "nh = ihi-ilo: the argument checks force ihi >= ilo-1 (and ihi = -1, ilo = 0 when n == 0), a relation between two parameters that the lower-bound facts of the prover cannot express; with nh >= 0 both answers (1 when n == 0, max(1,nh)*nb otherwise) dominate max(1,nh)",
+	"Dtrevc3.shortT":         "documented in the source: 'Normally we don't check slice lengths until after the workspace query. However, even in case of the workspace query we need to compute and return the value of m, and since the computation accesses t, we put the length check of t here.'",
+	"Dtrevc3.badLenSelected": "same documented exception: m is computed from selected and t also in a workspace query",
+	"Dlaqr23":                "the answer jw + max(Dgehrd query, Dormhr query) with jw = min(nw, kbot-ktop+1) exceeds the enforced 2*nw only through the constant tsize term of the nested answers (value-level); internal routine whose only caller Dlaqr04 takes the maximum with its own requirement",
 }
 
 func init() {
@@ -177,7 +179,7 @@ func init() {
 
 func lapackProp(self, other, what string) *property {
 	return &property{
-		explanation: "Decides structural necessary conditions of " + self + " on the lapack/gonum routines anchored by it (and shared auxiliaries), for every path and both workspace modes: ARGS.query — with lwork == -1 the only stores are to work[0] and the only calls are queries/scalar helpers ('a workspace query touches nothing else'); OKFLOW.use/.report — the ok/unconverged status of every callee (a singular pivot from Dgetrf/Dpotrf/Dtrtrs/...) reaches a branch, field or return, and no driver returns success on the path where a callee failed; ARGS.order/.lencheck/.complete — arguments are validated before any operand write, every slice use is preceded by a branch on its length, every int/flag/slice parameter is validated; STRIDE — no operand is addressed with another operand's leading dimension, so results cannot depend on which matrix's ld was used; a strided vector handed on to BLAS keeps its own increment (STRIDE.vecinc); a workspace block is used with one leading dimension throughout a routine and the region laid out after it starts that many rows further (STRIDE.workld/.worknext); FLAG.trans on the routines that accept ConjTrans; WORKSIZE.min/.set — on every path that returns in query mode the value stored to work[0] is proved (path-wise symbolic interpretation of the prologue in a max/min-of-polynomials normal form, block sizes and nested query answers >= 1, zero/positive facts from the quick-return tests) to be at least the minimum lwork the same routine enforces with panic(badLWork), so a caller passing the queried length is never rejected (found and repaired: the quick-return answers of nine routines and Dsyev's missing store). " + what,
+		explanation: "Decides structural necessary conditions of " + self + " on the lapack/gonum routines anchored by it (and shared auxiliaries), for every path and both workspace modes: ARGS.query — with lwork == -1 the only stores are to work[0] and the only calls are queries/scalar helpers ('a workspace query touches nothing else'); OKFLOW.use/.report — the ok/unconverged status of every callee (a singular pivot from Dgetrf/Dpotrf/Dtrtrs/...) reaches a branch, field or return, and no driver returns success on the path where a callee failed; ARGS.order/.lencheck/.complete — arguments are validated before any operand write, every slice use is preceded by a branch on its length, every int/flag/slice parameter is validated; STRIDE — no operand is addressed with another operand's leading dimension, so results cannot depend on which matrix's ld was used; a strided vector handed on to BLAS keeps its own increment (STRIDE.vecinc); a workspace block is used with one leading dimension throughout a routine and the region laid out after it starts that many rows further (STRIDE.workld/.worknext); FLAG.trans on the routines that accept ConjTrans; WORKSIZE.min/.set — on every path that returns in query mode the value stored to work[0] is proved (path-wise symbolic interpretation of the prologue in a max/min-of-polynomials normal form, block sizes and nested query answers >= 1, zero/positive facts from the quick-return tests) to be at least the minimum lwork the same routine enforces with panic(badLWork), so a caller passing the queried length is never rejected; WORKSIZE.querylen — no operand length panic is reachable in query mode, the drivers query their subroutines with nil operands (found and repaired: the quick-return answers of nine routines and Dsyev's missing store). " + what,
 		assumptions: commonAssumptions,
 		run: func(tier string, res *core.Result) {
 			sc := lapackScope(res, self, other)
@@ -211,7 +213,7 @@ func init() {
 	properties["C02"] = lapackProp("C02", "C03", "Does not decide backward stability, factor structure, blocked/unblocked agreement, or that the enforced minimum workspace is itself enough for the computation.")
 	properties["C03"] = lapackProp("C03", "C02", "Does not decide orthogonality, residual identities, ordering of values or convergence.")
 	properties["C07"] = &property{
-		explanation: "Decides, for all 281 exported BLAS and LAPACK entry points and every path through their prologues: ARGS.order (no argument-check panic is reachable after an operand may have been written), ARGS.lencheck (every use of a slice parameter is preceded on every path by a branch on its length — the only thing between a short slice and an out-of-bounds kernel access), ARGS.complete (every int/flag/slice parameter occurs in an argument check; exceptions are a frozen table with reasons), ARGS.optional (an operand validated only under a flag is used only under it), ARGS.query; MAT.order — in the 179 exported pointer-receiver methods of mat that validate shapes, none of the 297 shape/argument panics is reachable after the receiver was sized (reuseAs*) or written (zeroing stores are invalidation; element/status checks are data checks); TWIN.generated (the prologues of the untested float32/complex64 routines are the images of the tested ones) and TWIN.bounds (the bounds-checked and unchecked mat element accessors panic under the same conditions); STRIDE over BLAS, LAPACK and mat including STRIDE.len (a length check of operand p is written in p's own increment); ASM.window — in each of the 149 loops of the 56 assembly kernels every memory access through an induction register stays inside the bytes that iteration advances over (an over-wide load in a scalar tail is an out-of-bounds read on the last element); ASM.tail — outside the loops a block touches only the bytes it advances over, or one element in the final tail; ASM.units — a byte quantity is never scaled by SIZE again. Does NOT decide that the loop guards of the assembly leave enough elements, nor that each Go-level check uses the right extent polynomial.",
+		explanation: "Decides, for all 281 exported BLAS and LAPACK entry points and every path through their prologues: ARGS.order (no argument-check panic is reachable after an operand may have been written), ARGS.lencheck (every use of a slice parameter is preceded on every path by a branch on its length — the only thing between a short slice and an out-of-bounds kernel access), ARGS.complete (every int/flag/slice parameter occurs in an argument check; exceptions are a frozen table with reasons), ARGS.optional (an operand validated only under a flag is used only under it), ARGS.query; WORKSIZE.querylen (no operand length panic is reachable in a workspace query, which the drivers issue with nil operands); MAT.order — in the 179 exported pointer-receiver methods of mat that validate shapes, none of the 297 shape/argument panics is reachable after the receiver was sized (reuseAs*) or written (zeroing stores are invalidation; element/status checks are data checks); TWIN.generated (the prologues of the untested float32/complex64 routines are the images of the tested ones) and TWIN.bounds (the bounds-checked and unchecked mat element accessors panic under the same conditions); STRIDE over BLAS, LAPACK and mat including STRIDE.len (a length check of operand p is written in p's own increment); ASM.window — in each of the 149 loops of the 56 assembly kernels every memory access through an induction register stays inside the bytes that iteration advances over (an over-wide load in a scalar tail is an out-of-bounds read on the last element); ASM.tail — outside the loops a block touches only the bytes it advances over, or one element in the final tail; ASM.units — a byte quantity is never scaled by SIZE again. Does NOT decide that the loop guards of the assembly leave enough elements, nor that each Go-level check uses the right extent polynomial.",
 		assumptions: commonAssumptions,
 		run: func(tier string, res *core.Result) {
 			a := args.Run(def, core.Pkgs("./blas/gonum"), blasArgs)
@@ -239,6 +241,10 @@ func init() {
 			am.Floor("tail_memory_accesses", 100)
 			am.Floor("byte_scalings", 40)
 			res.Merge(am)
+
+			ws := worksize.Run(def, core.Pkgs("./lapack/gonum"), worksizeExempt)
+			ws.Floor("query_mode_prologues", 25)
+			res.Merge(ws.Only("WORKSIZE.querylen"))
 
 			ma := matargs.Run(def)
 			ma.Floor("methods_with_checks", 140)
